@@ -67,8 +67,9 @@ class ListOf(Shape):
 
 
 class DictOf(Shape):
-    def __init__(self, **items):
-        self.items = items
+    def __init__(self, _items=None, **items):
+        self.items = dict(_items or {})     # DictOf({0: shape}) for non-string keys
+        self.items.update(items)
 
 
 class Cls(Shape):
